@@ -100,6 +100,20 @@ func (f *FieldCopyFromGenerator) errAttrConversionFailure(path string, typ strin
 
 // nextField reads current field value from Terraform object and asserts it's type against expected
 func (f *FieldCopyFromGenerator) nextField(g func(g *j.Group)) *j.Statement {
+	if f.ParentIsOptionalEmbed && f.Kind != PrimitiveKind {
+		// Lists, maps and messages of a nullable embedded message are assigned directly,
+		// which needs the embedded parent: it is allocated when there is a value to read,
+		// and nothing has to be read or reset when it does not exist.
+		body := g
+		parent := "obj." + f.ParentIsOptionalEmbedFieldName
+		g = func(g *j.Group) {
+			g.If(j.Id("!v.Null && !v.Unknown && " + parent + " == nil")).Block(
+				j.Id(parent).Op("=").Id("&" + f.ParentIsOptionalEmbedFullType + "{}"),
+			)
+			g.If(j.Id(parent).Op("!=").Nil()).BlockFunc(body)
+		}
+	}
+
 	return j.Block(
 		// a, ok := ft.Attrs["key"]
 		j.List(j.Id("a"), j.Id("ok")).Op(":=").Id("tf.Attrs").Index(j.Lit(f.NameSnake)),
